@@ -367,7 +367,13 @@ public:
 
         Vector fk = m_fac_f * Q(m_m - 1, m_k - 1) + m_fac_V.col(m_k) * m_fac_H(m_k, m_k - 1);
         m_fac_f.swap(fk);
+        // The norm applies the B operator: if that throws, V, H and f are those of the compressed
+        // factorization but the cached norm is not, so the object must not keep advertising a
+        // dimension (a later call without init() would silently build on it)
+        const Index k = m_k;
+        m_k = 0;
         m_beta = m_op.norm(m_fac_f);
+        m_k = k;
     }
 };
 
